@@ -5,6 +5,7 @@ package main
 import (
 	"bytes"
 	"crypto/sha256"
+	"encoding/binary"
 	"encoding/hex"
 	"fmt"
 	"math"
@@ -651,6 +652,44 @@ func ids(c *mon.Ctx) {
 			} else if !bytes.Equal(nh.ID, blk.Header.ID) {
 				k.Violation("block-id:changed:NewBlockHeader", "the block ID changed", map[string]any{"header": hx(blk.Header.Encode())})
 			}
+			// encodings of the same header that are not canonical (a field left out, an over-long
+			// varint): where the lenient header decoder accepts one, the ID it assigns must survive
+			// re-encoding (and is the hash of the re-encoded header, which is what is stored and signed)
+			for _, v := range headerVariants(blk.Header.Encode()) {
+				k.Stage(v.b)
+				vh, err := blockchain.NewBlockHeader(v.b)
+				k.Eval(1)
+				if err != nil {
+					k.Count("noncanonical_header_rejected:"+v.name, 1)
+					continue
+				}
+				k.Count("noncanonical_header_accepted:"+v.name, 1)
+				k.Nontrivial("noncanonical-header/" + v.name)
+				re := vh.Encode()
+				vh2, err := blockchain.NewBlockHeader(re)
+				if err != nil {
+					k.Violation("new-block-header:rejects-own-encoding", "NewBlockHeader rejects BlockHeader.Encode output", err.Error())
+					continue
+				}
+				if !bytes.Equal(vh.ID, vh2.ID) || !bytes.Equal(vh.ID, hashOf(re)) {
+					k.Violation("block-id:changed-by-re-encoding:accepted-non-canonical-header:"+v.kind, "a header accepted from a non-canonical encoding gets an ID that changes when the header is re-encoded (store/load, forwarding)", map[string]any{"variant": v.name, "wire_header": hx(v.b), "id": hx(vh.ID), "reencoded": hx(re), "id_after_reencoding": hx(vh2.ID)})
+				}
+				// the same header inside a block on the wire
+				if len(wire) > 0 && wire[0] == 0x0a {
+					if l, n := binary.Uvarint(wire[1:]); n > 0 && int(l) == len(blk.Header.Encode()) {
+						bw := append([]byte{0x0a}, binary.AppendUvarint(nil, uint64(len(v.b)))...)
+						bw = append(append(bw, v.b...), wire[1+n+int(l):]...)
+						k.Stage(bw)
+						if vb, err := blockchain.NewBlock(bw); err == nil {
+							k.Count("noncanonical_header_in_block_accepted", 1)
+							vb2, err := blockchain.NewBlock(vb.Encode())
+							if err != nil || !bytes.Equal(vb.Header.ID, vb2.Header.ID) || !bytes.Equal(vb.Header.ID, hashOf(vb.Header.Encode())) {
+								k.Violation("block-id:changed-by-re-encoding:accepted-non-canonical-header:"+v.kind, "a block accepted with a non-canonical header encoding gets an ID that changes when the block is re-encoded (store/load, forwarding)", map[string]any{"variant": v.name, "wire_block": hx(bw), "id": hx(vb.Header.ID)})
+							}
+						}
+					}
+				}
+			}
 			for _, tx := range blk.Transactions {
 				nt, err := blockchain.NewTransaction(tx.Encode())
 				if err != nil {
@@ -841,4 +880,65 @@ func lisk32(c *mon.Ctx) {
 			k.Count("lisk32_19_bytes_rejected", 1)
 		}
 	})
+}
+
+type hdrVariant struct {
+	name, kind string
+	b          []byte
+}
+
+// headerVariants re-serialises the top-level fields of an encoded header in non-canonical
+// ways: each field left out in turn, each key / varint value / length written as an
+// over-long varint.
+func headerVariants(enc []byte) []hdrVariant {
+	type field struct {
+		num   uint64
+		wt    byte
+		start int // offset of the key
+		vOff  int // offset of the value varint / length varint
+		vLen  int // bytes of that varint
+		end   int
+	}
+	var fs []field
+	i := 0
+	for i < len(enc) {
+		key, n := binary.Uvarint(enc[i:])
+		if n <= 0 {
+			return nil
+		}
+		f := field{num: key >> 3, wt: byte(key & 7), start: i, vOff: i + n}
+		v, m := binary.Uvarint(enc[f.vOff:])
+		if m <= 0 {
+			return nil
+		}
+		f.vLen = m
+		switch f.wt {
+		case 0:
+			f.end = f.vOff + m
+		case 2:
+			f.end = f.vOff + m + int(v)
+		default:
+			return nil
+		}
+		if f.end > len(enc) {
+			return nil
+		}
+		fs = append(fs, f)
+		i = f.end
+	}
+	overlong := func(b []byte) []byte { // same value, one byte longer
+		o := append([]byte{}, b...)
+		o[len(o)-1] |= 0x80
+		return append(o, 0x00)
+	}
+	var out []hdrVariant
+	for _, f := range fs {
+		drop := append(append([]byte{}, enc[:f.start]...), enc[f.end:]...)
+		out = append(out, hdrVariant{fmt.Sprintf("drop-field-%d", f.num), "field-left-out", drop})
+		ol := append(append(append([]byte{}, enc[:f.vOff]...), overlong(enc[f.vOff:f.vOff+f.vLen])...), enc[f.vOff+f.vLen:]...)
+		out = append(out, hdrVariant{fmt.Sprintf("overlong-value-or-length-of-field-%d", f.num), "over-long-varint", ol})
+		okey := append(append(append([]byte{}, enc[:f.start]...), overlong(enc[f.start:f.vOff])...), enc[f.vOff:]...)
+		out = append(out, hdrVariant{fmt.Sprintf("overlong-key-of-field-%d", f.num), "over-long-varint", okey})
+	}
+	return out
 }
